@@ -14,8 +14,6 @@
 (*  Regression variant compute_laplacian_brk (seeded change C09_4: leave   *)
 (*  the inner loop at the first weight that is exactly zero):              *)
 (*    brk_agrees     no used weight is zero -> the variant IS the routine  *)
-(*    brk_zero_last  ... and more generally when in every list the zero    *)
-(*                   weights come last (nearest-first lists): see below    *)
 (*    brk_refuted    Qc witness: two lists with the same entries, the      *)
 (*                   variant gives different matrices (3 samples on a      *)
 (*                   line, the far pair's weight is 0)                     *)
